@@ -218,6 +218,14 @@ def case_nearly_incompressible(kind, fam, rep):
         label = "SolidBodyNearlyIncompressible[%s]" % kind
         evaluate(run, [body], field, label, rng, conservative=True, order=rep % 3)
         run.configs.add(str((label, fam)))
+        if which in ("NeoHooke", "tt.yeoh"):
+            # two condensed bodies on one field (two materials in one model; the layout of sub-mesh bodies linked to one top-level
+            # field before they are created): each keeps its own record of the displacements of its last evaluation
+            field2, mesh2, reg2 = make_field(kind, fam, "distorted", rng)
+            random_state(rng, field2)
+            ba = fem.SolidBodyNearlyIncompressible(fem.NeoHooke(mu=float(rng.uniform(0.5, 2))), field2, bulk=float(rng.uniform(10, 500)))
+            bb = fem.SolidBodyNearlyIncompressible(fem.NeoHooke(mu=float(rng.uniform(0.5, 2))), field2, bulk=float(rng.uniform(10, 500)))
+            evaluate(run, [ba, bb], field2, "two-condensed-bodies-on-one-field[%s]" % kind, rng, conservative=True, order=rep % 3)
     return fn
 
 
@@ -559,7 +567,7 @@ def _required():
                                      "mixed-list[condensed+pressure+constraint]", "MultiPointConstraint[2d]", "MultiPointContact[2d]",
                                      "SolidBody[mixed,tetraMINI]", "SolidBody[mixed,triangleMINI]", "SolidBody[mixed,hexahedron27]",
                                      "SolidBodyNearlyIncompressible[tetra10]", "SolidBody[RegionLagrange]")]
-    req += ["mixed-inner:NeoHooke", "mixed-inner:NeoHookeCompressible"]
+    req += ["mixed-inner:NeoHooke", "mixed-inner:NeoHookeCompressible", "tangent:two-condensed-bodies-on-one-field[3d]"]
     req.append("multi-item-list-with-multiplier=-1")
     req += ["order:after-another-state", "order:foreign-container", "order:parallel", "solidbody-multiplier"]
     req += ["ni-umat:" + w for w in ("NeoHooke", "tt.yeoh", "NeoHookeCompressible", "OgdenRoxburgh")]
